@@ -629,10 +629,11 @@ func run(args []string) error {
 			short = short[:60]
 		}
 		cj := map[string]interface{}{"idx": i, "n": n, "request": rq.label, "n_offered": len(uxb), "n_to": len(rq.p.To), "result": short, "verify_unsigned": vu}
-		if len(uxb) <= 3 && len(rq.p.To) <= 2 {
-			cj["offered"] = fmt.Sprint(uxs)
-			cj["params"] = paramsTerm(k, rq.p)
-		}
+		// inputs as model terms: mk_ux hash-rank bkseq address-rank coins hours initial-hours src-null;
+		// mk_params type mode share(num, den) [mk_out address-rank coins hours] change-address
+		cj["offered"] = fmt.Sprint(uxs)
+		cj["params"] = paramsTerm(k, rq.p)
+		cj["burn_factor"] = burn
 		if len(uxb) == 1 && len(rq.p.To) == 1 && rq.p.ChangeAddress != nil && *rq.p.ChangeAddress == rq.p.To[0].Address {
 			cj["shape"] = "change-equals-only-destination"
 		}
